@@ -14,6 +14,11 @@ CHECKS["C02"] = dict(
    note="Trusted: Coq kernel; hand transcription of compute_gaps_change/insert_db/insert_partial/generate_sync/from_conn and of the seq-row SQL (tied by differential testing); Lib/Ivl.v as model of rangemap (checked by the same diff); extraction+driver; harness. Not yet proved (only checked on implementation states by the oracle): from_conn(reload) = live state. v=0 / >=2^63 outside the quantifier.",
    technique="Coq invariant proof by induction over operation sequences (unbounded) + differential check of every step against the real bookkeeping on SQLite + extracted oracle",
    design="Part II C02")
+CHECKS["C04"] = dict(
+   text="Theorems (Coq, unbounded): for every pair of well-formed sync states with any number of actors, compute_available_needs (modelled) never requests the node's own actor, keeps every Full request inside 1..peer head, requests every version the peer fully holds and the node lacks (needed / beyond head / unknown actor), and for a version partial here and held there requests exactly the node's missing seqs. Model tied to the real function by differential testing on generated state pairs; the extracted oracle check_needs sweeps soundness+completeness (incl. both-partial case) over the implementation's output.",
+   note="Trusted: Coq kernel; hand transcription of compute_available_needs (tied by differential testing); Lib/Ivl.v for rangemap; extraction+driver; harness. Both-sides-partial completeness is checked by the oracle, not yet a theorem; client-side request de-duplication in parallel_sync is not covered.",
+   technique="Coq proof over association-list states (unbounded actors/ranges) + differential check against the real compute_available_needs + extracted oracle sweep",
+   design="Part II C04")
 NA = {}
 ALL = ["C%02d" % i for i in range(1, 21)]
 def main():
